@@ -1,6 +1,7 @@
 import Ztr.Props.C07
 import Ztr.Props.C04
 import Ztr.Model.Runner
+import Ztr.Model.Whole
 /-! # C02 — the verdict is 'failed' exactly when something went wrong (partial)
 
 The verdict of one process is a function of its three lists, `C02_verdict`; what fills the lists is
@@ -415,29 +416,6 @@ What can happen to a child is a parameter (`fate`): it completes and its report 
 `C07_truncation`, `C07_spawn_failure` and `C07_never_crash` the parent then records a communication
 error for the layer and nothing else.  A child that completes is bad for the parent iff its report
 lists a failure or an error (`C07_roundtrip`: exactly the child's lists arrive). -/
-
-inductive Fate
-  | completes | lost
-  deriving DecidableEq, Repr
-
-/-- the resume number the parent hands to the child for layer `l` -/
-def numberOf (w : World) (o : Opts) (l : Nat) : Nat :=
-  (if o.processes > 1 then 1 else 0) + ((fsLoop w o).2.map (·.1)).idxOf l
-
-/-- the child process for layer `l` (children never spawn) -/
-def childOut (w : World) (o : Opts) (l : Nat) : Outcome :=
-  runProcess w { o with resume := some (l, numberOf w o l) } (fun _ => false)
-
-/-- how the parent sees the child for layer `l` -/
-def cbOf (w : World) (o : Opts) (fate : Nat → Fate) (l : Nat) : Bool :=
-  fate l == .lost || !(childOut w o l).failures.isEmpty || !(childOut w o l).errors.isEmpty
-
-/-- the parent process of the run -/
-def parentOut (w : World) (o : Opts) (fate : Nat → Fate) : Outcome := runProcess w o (cbOf w o fate)
-
-/-- the layers for which a child was started -/
-def spawnedLayers (τ : List Ev) : List Nat :=
-  τ.filterMap (fun e => match e with | .spawn l _ => some l | _ => none)
 
 /-- something went wrong inside a process: a bad test outcome or a layer hook that raised -/
 def isBadEv (e : Ev) : Bool := isFailEv e || isErrEv (fun _ => false) e
